@@ -104,4 +104,21 @@ instance (a b : Date) : Decidable (a.yearsLe b) := by unfold Date.yearsLe; exact
 def Date.isBefore (a b : Date) : Bool := decide (a.yearsLt b)
 def Date.isAfter (a b : Date) : Bool := decide (b.yearsLt a)
 
+/-- `DateNodes.Minimum()` (date_nodes.go): index of the first date whose `Years()` is strictly
+    smaller than every earlier candidate -/
+def minimumIdx (ds : List Date) : Option Nat :=
+  let rec go : List Date → Nat → Option (Nat × Date) → Option (Nat × Date)
+    | [], _, acc => acc
+    | d :: rest, i, none => go rest (i+1) (some (i, d))
+    | d :: rest, i, some (j, m) => go rest (i+1) (if d.yearsLt m then some (i, d) else some (j, m))
+  (go ds 0 none).map (·.1)
+
+/-- `DateNodes.Maximum()` -/
+def maximumIdx (ds : List Date) : Option Nat :=
+  let rec go : List Date → Nat → Option (Nat × Date) → Option (Nat × Date)
+    | [], _, acc => acc
+    | d :: rest, i, none => go rest (i+1) (some (i, d))
+    | d :: rest, i, some (j, m) => go rest (i+1) (if m.yearsLt d then some (i, d) else some (j, m))
+  (go ds 0 none).map (·.1)
+
 end Gedcom
